@@ -8,7 +8,7 @@
   closures in hand-out order (`fifo = true`) and those that did not.
 
   Run on 15 graphs_Q with ≤ 3 nodes (`graphs_Q`), 240 configurations each (6 strategies × incl ×
-  4 limits_Q × 5 API modes_Q), `#eval FG.QSearch.searchGraph i` for `i = 0 … 14`
+  4 limits_Q × 5 API modes_Q), `#eval FG.QSearch.searchGraph_Q i` for `i = 0 … 14`
   (2.2 million product states in total): the ONLY failing note is
       `C09 … processed=started`, and only with `fifo = false`.
   The `#eval` at the end repeats this for the two 2-node graphs_Q.
@@ -137,5 +137,5 @@ def searchGraph_Q (gi : Nat) : IO Unit := do
 end FG.QSearch
 
 /- graph 2 = two independent functions, graph 3 = the chain `0 → 1` -/
-#eval FG.QSearch.searchGraph 2
-#eval FG.QSearch.searchGraph 3
+#eval FG.QSearch.searchGraph_Q 2
+#eval FG.QSearch.searchGraph_Q 3
